@@ -208,8 +208,11 @@ def _descent_direction(X, y, w_epoch, Xw_epoch, fit_intercept, grad_ws, datafit,
             grp_g_indices = grp_indices[grp_ptr[g]:grp_ptr[g+1]]
             range_grp_g = slice(ptr, ptr + len(grp_g_indices))
 
-            # skip when X[:, grp_g_indices] == 0
+            # X[:, grp_g_indices] == 0: the gradient is zero, only the penalty acts
+            # on the group (same fallback step as in the BCD epochs)
             if lipchitz[idx] == 0.:
+                w_ws[range_grp_g] = penalty.prox_1group(
+                    w_ws[range_grp_g].copy(), 1000., g)
                 ptr += len(grp_g_indices)
                 continue
 
